@@ -85,6 +85,21 @@ func namedSigner(msg sdk.Msg) string {
 	return ""
 }
 
+// AfterEnd: messages executed by governance. A proposal that passed and executed names the
+// governance account as the party of each custom message; whether that account is the party the
+// operation belongs to is judged like for anybody else (it is the authority for parameter updates;
+// it is an enterprise signer, a whitelisted purchaser, an owner or a stream party only if it was
+// made one).
+func (m *monC13) AfterEnd(w *World, _ abci.ResponseEndBlock) {
+	for _, ge := range w.M.Gov.Executed {
+		k := msgKind(ge.Msg)
+		w.Probe("c13.executed-by-governance")
+		if ge.Exp.MustFail && !ge.Exp.Entitled {
+			w.Violate("C13", "C13/not-entitled-accepted/"+ge.Exp.Rule+"/via-governance", "proposal %d passed and executed %s although %s", ge.Proposal, k, ge.Exp.Rule)
+		}
+	}
+}
+
 func (m *monC13) AfterTx(w *World, tx *TxCtx) {
 	leaves, _ := tx.Stash["leaves"].([]Leaf)
 	exps := expectationsOf(tx)
